@@ -82,6 +82,21 @@ def check_conversion_tolerance(ctx, fl) -> None:
                        "vacuously true for the empty list of unresolved variables): a mistyped constant such as resourceRequest.memory: '4 gigs' "
                        "passes validation and fails later, outside the loader", construct="convert(): tolerated conversion failure <- a variable in the value")
     ctx.floor(RID, n, 2, "exits of convert()'s failure handler that swallow the conversion error")
+    # what is handed to expected_type(value) at all: text, int and bool.  A float must not be among them - int(2.5) succeeds and is 2, so
+    # the conversion would REPAIR a wrongly typed value before the schema (the only guard for a float given where an int is declared)
+    # ever sees it
+    for f in ast.walk(cct):
+        if not isinstance(f, ast.FunctionDef) or f is cct:
+            continue
+        for t in source.walk_own(f):
+            if isinstance(t, ast.Call) and call_name(t) == "isinstance" and len(t.args) == 2 and isinstance(t.args[0], ast.Name) \
+                    and any(isinstance(x, ast.Name) and x.id == "string_types" for x in ast.walk(t.args[1])):
+                lossy = [x.id for x in ast.walk(t.args[1]) if isinstance(x, ast.Name) and x.id in ("float", "complex", "Decimal", "object")]
+                ctx.ob(RID, t, not lossy,
+                       "convert() hands text, int and bool to the expected type (a float is left for the schema to judge)" if not lossy else
+                       "convert() also hands %s values to expected_type(value): int(2.5) is 2 and bool(0.5) is True - a float given for an int / "
+                       "bool option is silently repaired before validation, 'numberProcesses: 2.5' loads as 2 instead of being rejected"
+                       % "/".join(lossy), construct="convert(): isinstance(value, <text, int, bool>)")
 
 
 def check_raw_components_validated(ctx, fl) -> None:
